@@ -35,6 +35,9 @@ var CurlyRes = []rePool{
 	{"^\\d\\d$", []string{"42"}, []string{"4", "423", "ab"}, nil},
 	{"^[^.]+\\.txt$", []string{"a.txt"}, []string{".txt", "a.b.txt", "atxt"}, nil},
 	{"^prefix-", []string{"prefix-"}, []string{"prefix", "xprefix-"}, []string{"prefix-user"}},
+	// expressions that match everything: still ONE segment, not the {v:*} tail wildcard
+	{".*", []string{"abc", "a.b", "12"}, nil, nil},
+	{".+", []string{"abc", "x"}, []string{""}, nil},
 }
 
 // JsrRes: segment-local expressions (positive classes, no anchors, no groups): the forms RouterJSR311 documents.
